@@ -17,5 +17,6 @@ def run(ck):
     timeouts.spec_set_idle_timeout(ck)
     timeouts.spec_create_context(ck)
     timeouts.spec_main_wiring(ck)
+    timeouts.spec_timeouts_section(ck)
     timeouts.spec_copy_bidi_tick(ck)
     ck.post_filter = lambda o: o.label.startswith('C13/') or o.status in ('undecided', 'vacuous', 'inconclusive')
